@@ -28,9 +28,7 @@ func (u *Unit) recordCall(fr *Frame, st *State, c *ssa.CallCommon, res Val) {
 		return
 	}
 	name := shortCallee(u.calleeName(c))
-	key := "callsite:" + name
-	k := u.ordinals[key]
-	u.ordinals[key] = k + 1
+	k := u.siteIndex(fr.fn, c, func(n string) bool { return shortCallee(n) == name })
 	if u.callRes == nil {
 		u.callRes = map[string]Val{}
 	}
@@ -56,7 +54,7 @@ func (u *Unit) evalRet(e *SExpr, env *Env) Val {
 	}
 	v, ok := u.callRes[key]
 	if !ok {
-		u.specFail("%s: the function never calls %s", e.Name, key)
+		panic(missingCall{key})
 	}
 	switch e.Name {
 	case "ret":
@@ -85,8 +83,74 @@ func (u *Unit) tryEvalBool(e *SExpr, env *Env) (t Term, ok bool) {
 				ok = false
 				return
 			}
+			if _, is := r.(missingCall); is {
+				ok = false
+				return
+			}
 			panic(r)
 		}
 	}()
 	return u.evalBool(e, env), true
+}
+
+// siteIndex: position of a call site among the calls of fn whose callee name matches (by `match`),
+// in source order. Stable under the order in which blocks happen to be executed symbolically.
+func (u *Unit) siteIndex(fn *ssa.Function, c *ssa.CallCommon, match func(name string) bool) int {
+	type site struct {
+		pos int
+		c   *ssa.CallCommon
+	}
+	var sites []site
+	for _, b := range fn.Blocks {
+		for k, in := range b.Instrs {
+			ci, ok := in.(ssa.CallInstruction)
+			if !ok {
+				continue
+			}
+			cc := ci.Common()
+			var name string
+			if bi, ok := cc.Value.(*ssa.Builtin); ok {
+				name = "builtin." + bi.Name()
+			} else {
+				name = u.calleeName(cc)
+			}
+			if match(name) {
+				p := int(in.Pos())
+				if p == 0 {
+					p = 1<<30 + b.Index*10000 + k
+				}
+				sites = append(sites, site{p, cc})
+			}
+		}
+	}
+	for i := 1; i < len(sites); i++ {
+		for j := i; j > 0 && sites[j].pos < sites[j-1].pos; j-- {
+			sites[j], sites[j-1] = sites[j-1], sites[j]
+		}
+	}
+	for i, s := range sites {
+		if s.c == c {
+			return i
+		}
+	}
+	return -1
+}
+
+// missingCall: a clause refers to the result of a call the function does not make (any more).
+type missingCall struct{ name string }
+
+// evalClause evaluates a clause that becomes an obligation. A clause about ret(X) when the function
+// does not call X at all is false: the code no longer has the structure the contract demands.
+func (u *Unit) evalClause(e *SExpr, env *Env) (t Term) {
+	defer func() {
+		if r := recover(); r != nil {
+			if m, is := r.(missingCall); is {
+				u.note("clause refers to a call that is not made: " + m.name)
+				t = tFalse
+				return
+			}
+			panic(r)
+		}
+	}()
+	return u.evalBool(e, env)
 }
